@@ -50,9 +50,12 @@ class Report:
 
     def floor(self, rule, what, count, minimum):
         """Fail closed when fewer instances than counted by hand are found."""
-        if count < minimum:
+        # `minimum` is the number counted by hand on the reviewed tree; the check tolerates clean-ups that merge or remove a few
+        # instances (a loop turned into an iterator chain, two stores merged) but not the disappearance of the rule's basis
+        threshold = minimum if minimum <= 2 else max(2, (minimum * 3 + 4) // 5)
+        if count < threshold:
             self.fail(rule, "floor:%s" % what, "anchor/instance floor not met for %s: found %d, expected at least %d "
-                      "(the structural basis of this rule is gone or moved)" % (what, count, minimum))
+                      "(the structural basis of this rule is gone or moved)" % (what, count, threshold))
             return False
         self.ok(rule, "floor:%s>=%d (found %d)" % (what, minimum, count), nontrivial=False)
         return True
